@@ -85,6 +85,7 @@ func (it *Interp) lookup(fr *frame, instr *ssa.Lookup, x, idx Value) Value {
 }
 
 func (it *Interp) mapUpdate(fr *frame, m *Map, key, val Value) {
+	it.impure("map update")
 	if it.lockLog != nil {
 		it.lockLog.accessObj(fr, m, true)
 	}
@@ -102,6 +103,7 @@ func (it *Interp) mapUpdate(fr *frame, m *Map, key, val Value) {
 }
 
 func (it *Interp) mapDelete(fr *frame, m *Map, key Value) {
+	it.impure("map delete")
 	if it.lockLog != nil {
 		it.lockLog.accessObj(fr, m, true)
 	}
